@@ -264,6 +264,7 @@ func (r *Router) parsePingMsg(f frame.Frame) (hdr *PingHeader, body []byte, err 
 	}
 
 	// Unseal ping message.
+	var duplicate bool
 	if err := f.Unseal(session); err != nil {
 		switch {
 		case f.MessageType() == frame.RouterHopPingDeprecated &&
@@ -274,6 +275,7 @@ func (r *Router) parsePingMsg(f frame.Frame) (hdr *PingHeader, body []byte, err 
 			// Hop pings may have immediate duplicate frames, as the pings hop and
 			// spread and we might receive variants of the same message from different
 			// peers - eg. router announcements.
+			duplicate = true
 		default:
 			return nil, nil, fmt.Errorf("unseal: %w", err)
 		}
@@ -283,6 +285,12 @@ func (r *Router) parsePingMsg(f frame.Frame) (hdr *PingHeader, body []byte, err 
 	hdr, dataOffset, err := parsePingHeader(f)
 	if err != nil {
 		return nil, nil, fmt.Errorf("parse ping header: %w", err)
+	}
+
+	// Only announcements hop and spread: any other ping type in a hop ping
+	// frame is a replay when it is a duplicate.
+	if duplicate && hdr.PingType != announcePingType {
+		return nil, nil, fmt.Errorf("unseal: %w", state.ErrImmediateDuplicateFrame)
 	}
 
 	return hdr, f.MessageData()[dataOffset:], nil
